@@ -53,11 +53,13 @@ Definition dashed (h : str) : str :=
 
 (* str(value) for the value types of the model; float text stands for str(float) (Section contract in the proofs) *)
 Definition value_str (v : value) : str :=
-  match v with VStr s => s | VInt z => print_int z | VFloat t => t | VUuid h => dashed h end.
+  match v with VStr s => s | VInt z => print_int z | VFloat t => t | VFloatRaw t => t | VUuid h => dashed h end.
+Definition is_raw_float (v : value) : bool := match v with VFloatRaw _ => true | _ => false end.
 
 (* converter.to_url(value); values of another type than the converter produces are outside the model
    (int("x") and friends), except for the converters that only take str(value) *)
 Definition to_url (c : conv) (v : value) : bres str :=
+  if is_raw_float v then BUnsupported else     (* str(float(text)) is not computed *)
   match c with
   | CStr _ _ _ | CPath => BOk (quote safe_to_url (value_str v))
   | CAny items => match v with
